@@ -244,6 +244,18 @@ static void literalCase(uint64_t k, Rng &rng, std::ostream &o) {
 		o << '\n';
 		std::ostringstream b, h; b << v; h << std::hex << v;
 		o << "bin " << (b.str().empty() ? "-" : b.str()) << '\n' << "hex " << (h.str().empty() ? "-" : h.str()) << '\n';
+		for (int t = 0; t < 3; t++) { // formatRange on sub-ranges (the bit behind the range exists in most cases) in bases 2, 8, 16
+			static const unsigned bases[] = {2, 8, 16};
+			unsigned base = bases[rng.below(3)];
+			size_t sz = rng.below(v.size() + 1); size_t off = rng.below(v.size() - sz + 1);
+			std::ostringstream f; formatRange(f, v, base, off, sz);
+			o << "fr " << base << ' ' << off << ' ' << sz << ' ' << (f.str().empty() ? "-" : f.str()) << '\n';
+		}
+		for (int t = 0; t < 2; t++) {
+			unsigned base = rng.chance(1, 2) ? 16 : 2; bool drop = rng.chance(1, 2);
+			std::ostringstream f; formatState(f, v, base, drop);
+			o << "fs " << base << ' ' << (drop ? 1 : 0) << ' ' << (f.str().empty() ? "-" : f.str()) << '\n';
+		}
 	} catch (const gtry::utils::DesignError &) { o << "-> e:design\n"; }
 	  catch (const gtry::utils::InternalError &) { o << "-> e:internal\n"; }
 	o << "end\n";
